@@ -390,6 +390,10 @@ class LogWarperComponent(OutputWarper):
   _labels_max: Optional[float] = attr.field(default=None)
   offset: float = attr.field(default=1.5, validator=attrs.validators.gt(0.0))
 
+  def __attrs_post_init__(self):
+    if self.offset == 1.0:
+      raise ValueError('offset must differ from 1 (log(offset) is a divisor).')
+
   def warp(self, labels_arr: types.Array) -> types.Array:
     """See base class."""
     labels_arr = _validate_labels(labels_arr)
